@@ -49,7 +49,10 @@ CONSTANTS
   EagerOps,       \* operations whose Dask path computes its input while building (mutant models)
   NumpyOps,       \* operations whose Dask path returns a NumPy-backed result (mutant models)
   ReaderPerBlock, \* TRUE: a dask read issues one _read_array per time chunk (mutant model)
-  OverwriteTags   \* transforms whose tasks work in place on the block they are given (mutant model)
+  OverwriteTags,  \* transforms whose tasks work in place on the block they are given (mutant model)
+  StickyKwargs,   \* TRUE: keywords of an earlier map_blocks call leak into later Dask calls (mutant model)
+  LazySetitemLost, \* TRUE: for several shifts the zeroing is assigned to a slice of the Dask array, i.e. lost (mutant model)
+  SharedHandle    \* TRUE: the reads of one reader seek / read on one shared stream handle (mutant model)
 
 VARIABLES
   sig,      \* the current signal
@@ -141,14 +144,20 @@ BlockEval(kind, par, ins, osh, lit) ==
                                <<ins[par.i[2]][<<l[1], l[2], par.i[3]>>], ins[par.i[4]][<<l[1], l[2], par.i[5]>>]>>)]
     [] kind = "col" ->       \* transform along axis ax of the block the task holds (n = its length there)
          LET ax == par.i[1]  n == par.i[2]  lc == par.i[3]  aux == par.i[4]
+             zf == par.i[5]       \* 1: the lazy setitem (zero fill) reaches the array
              s == par.m[1]
          IN [l \in Idx(osh) |->
                LET li == IF lc = 0 THEN l ELSE <<l[1], lc - 1, l[3]>>
                    sc == IF s = <<>> THEN 0 ELSE s[l[2] + 1]
-               IN IF s # <<>> /\ ZeroedAt(l[ax], n, sc) THEN Zero
+               IN IF s # <<>> /\ zf = 1 /\ ZeroedAt(l[ax], n, sc) THEN Zero
                   ELSE T(par.f, <<l[ax]>> \o (IF s = <<>> THEN <<>> ELSE <<sc>>),
                          Line(ins[1], li, ax, n)
                          \o (IF aux = 0 THEN <<>> ELSE Line(ins[2], <<0, 0, 0>>, 1, n)))]
+    [] kind = "seek" ->      \* position a stream handle: the location holds the position
+         [l \in Idx(osh) |-> T("pos", <<par.i[1]>>, <<>>)]
+    [] kind = "rd" ->        \* read n = osh[1] samples from wherever the handle stands
+         LET pos == ins[1][<<0, 0, 0>>].a[1]
+         IN [l \in Idx(osh) |-> X(<<pos + l[1], l[2], l[3], osh[1]>>)]
     [] kind = "stft" ->      \* segments of n samples of the gathered time axis -> n channels
          LET n == par.i[1]  D == par.i[2]
              doff == [j \in 1..D |-> par.m[j]]
@@ -182,6 +191,13 @@ Key(n, a) == [n |-> n, a |-> a]
 EwRule(s, f, cls) ==
   Rule(TRUE, s.sh, ChOf(s), Rec("ew", Par(f, <<>>, <<>>), <<>>), <<>>,
        [b \in BlockSet(ChOf(s)) |-> Rec("ew", Par(f, <<>>, <<>>), <<Dep(b)>>)],
+       [s.meta EXCEPT !.cls = cls])
+
+\* a signal_transform-decorated function with an optional keyword: k = 0 means "not given" (default).
+\* The NumPy path sees k; the tasks see kd (the same, unless keywords leak between calls).
+EwRuleK(s, f, k, kd, cls) ==
+  Rule(TRUE, s.sh, ChOf(s), Rec("ew", Par(f, <<k>>, <<>>), <<>>), <<>>,
+       [b \in BlockSet(ChOf(s)) |-> Rec("ew", Par(f, <<kd>>, <<>>), <<Dep(b)>>)],
        [s.meta EXCEPT !.cls = cls])
 
 \* ---- basic slice a:b:c on axis ax (dask: every output block is a window of one input block;
@@ -242,9 +258,10 @@ ColRule(s, tag, ax, shifts, helper, force) ==
             ELSE <<[key |-> Key(helper, <<n>>), par |-> Par(helper, <<n>>, <<>>), len |-> n]>>
       aux == IF helper = "" THEN 0 ELSE 1
   IN Rule(force \/ ~FftNeedsOneChunk \/ Len(ich[ax]) = 1, s.sh, ich,
-          Rec("col", Par(tag, <<ax, n, 0, aux>>, <<sv(0, s.sh[2])>>), <<>>), hl,
+          Rec("col", Par(tag, <<ax, n, 0, aux, 1>>, <<sv(0, s.sh[2])>>), <<>>), hl,
           [bo \in BlockSet(ich) |->
-             Rec("col", Par(tag, <<ax, ich[ax][bo[ax]], 0, aux>>, <<sv(Offs(ich[2])[bo[2]], ich[2][bo[2]])>>),
+             Rec("col", Par(tag, <<ax, ich[ax][bo[ax]], 0, aux, IF LazySetitemLost /\ Len(shifts) > 1 THEN 0 ELSE 1>>,
+                            <<sv(Offs(ich[2])[bo[2]], ich[2][bo[2]])>>),
                  <<Dep(bo)>> \o (IF helper = "" THEN <<>> ELSE <<Hlp(1)>>))],
           s.meta)
 
@@ -265,7 +282,7 @@ CohRule(s, dm) ==
           Rec("cdd", NoPar, <<>>), hl,
           [bo \in BlockSet(och) |->
              LET bc == ChunkOf(ich[2], bo[2] - 1)
-             IN Rec("col", Par("cdd", <<1, ich[1][bo[1]], (bo[2] - 1) - Offs(ich[2])[bc] + 1, 1>>, <<<<>>>>),
+             IN Rec("col", Par("cdd", <<1, ich[1][bo[1]], (bo[2] - 1) - Offs(ich[2])[bc] + 1, 1, 1>>, <<<<>>>>),
                     <<Dep(<<bo[1], bc, bo[3]>>), Hlp(bo[2])>>)],
           s.meta)
 
@@ -438,6 +455,7 @@ Applies(s, o) ==
        [] op = "to_circular" -> cls = "DualPolarizationSignal"
        [] op = "time_shift" -> s.sh[1] >= 1 /\ (Len(o.a) = 2 \/ (Len(o.a) = 1 + s.sh[2] /\ s.sh[2] > 1))
        [] op = "freq_shift" -> IsBaseband(cls) /\ s.sh[1] >= 1
+                               /\ (Len(o.a) = 1 \/ (Len(o.a) = s.sh[2] /\ s.sh[2] > 1))
        [] op = "coh_dd" -> IsBaseband(cls) /\ s.sh[1] >= 1
        [] op = "incoh_dd" -> /\ cls # "Signal" /\ (s.sh[2] = 1 => Arg(o, 1) = Arg(o, 2))
                              /\ s.sh[1] - (PMax(Arg(o, 1), Arg(o, 2)) - PMin(0, PMin(Arg(o, 1), Arg(o, 2)))) >= 1
@@ -471,7 +489,11 @@ RunPlan(S, o, step) ==
        [] op = "fslice" -> one(SliceRule(s, 2, Arg(o, 1), Arg(o, 2), None, FreqSliceMeta(s, Arg(o, 1), Arg(o, 2))), "getitem")
        [] op = "ufunc" -> one(EwRule(s, "abs", s.meta.cls), "absolute")
        [] op = "iufunc" -> one(EwRule(s, "iadd", s.meta.cls), "add")
-       [] op = "map_blocks" -> one(EwRule(s, "mb", s.meta.cls), "mapblocks")
+       [] op = "map_blocks" ->
+            LET k == Arg(o, 1)
+                before == {j \in 1..Len(hist) : hist[j].op = "map_blocks" /\ hist[j].a[1] # 0 /\ hist[j].pre.back = "dask"}
+                kd == IF StickyKwargs /\ k = 0 /\ before # {} THEN hist[SetMax(before)].a[1] ELSE k
+            IN one(EwRuleK(s, "mb", k, kd, s.meta.cls), "mapblocks")
        [] op = "map_blocks_col" -> one(ColRule(s, "mbcol", 1, <<>>, "", TRUE), "mapblocks")
        [] op = "to_intensity" -> one(EwRule(s, "abs2", "IntensitySignal"), "intensity")
        [] op = "stokes_item" ->
@@ -486,7 +508,7 @@ RunPlan(S, o, step) ==
                THEN (IF Arg(o, 1) = 1 THEN two(ColRule(s, "tsh", 1, sh, "fftfreq", FALSE), "ifft")
                      ELSE one(ColRule(s, "tsh", 1, sh, "fftfreq", FALSE), "ifft"))
                ELSE one(SliceRule(s, 1, w[1], w[2], None, TimeSliceMeta(s, w[1], w[2], None)), "getitem")
-       [] op = "freq_shift" -> one(ColRule(s, "fsh", 1, <<Arg(o, 1)>>, "arange", FALSE), "ifft")
+       [] op = "freq_shift" -> one(ColRule(s, "fsh", 1, o.a, "arange", FALSE), "ifft")
        [] op = "coh_dd" ->
             LET w == CohCrop(s.sh[1], Arg(o, 1), Arg(o, 2))
             IN IF step = 1 THEN two(CohRule(s, o.a), "ifft")
@@ -537,6 +559,24 @@ MkRoot(r) ==
                        g |-> [j \in 1..Len(tch) |->
                                 SrcTask("read", j, <<tch[j], r.sh[2], r.sh[3]>>,
                                         SpanVal(<<tch[j], r.sh[2], r.sh[3]>>, Offs(tch)[j], tch[j]))]]
+            IN IF r.ch = ch0 THEN S0 ELSE Apply(S0, RechunkRule(S0.sig, r.ch), "rechunk")
+       [] r.back = "reads" ->
+            \* pb.concatenate of one dask read per time chunk of r.ch: every read positions a stream
+            \* handle ("seek" task) and reads from it ("rd" task).  Each read has its own handle;
+            \* mutant model: all reads of the reader share one (one location written by every seek).
+            LET tch == r.ch[1]
+                ch0 == <<tch, <<r.sh[2]>>, <<r.sh[3]>>>>
+                pieces == [l \in Idx(r.sh) |-> LET j == ChunkOf(tch, l[1]) IN X(<<l[1], l[2], l[3], tch[j]>>)]
+                seek(j) == [key |-> Key("handle", <<IF SharedHandle THEN 0 ELSE j>>), kind |-> "seek",
+                            par |-> Par("", <<Offs(tch)[j]>>, <<>>), deps |-> <<>>, osh |-> <<1, 1, 1>>, lit |-> <<>>,
+                            den |-> BlockEval("seek", Par("", <<Offs(tch)[j]>>, <<>>), <<>>, <<1, 1, 1>>, <<>>)]
+                rd(j) == LET osh == <<tch[j], r.sh[2], r.sh[3]>>
+                         IN [key |-> Key("read", <<j>>), kind |-> "rd", par |-> NoPar, deps |-> <<j>>, osh |-> osh, lit |-> <<>>,
+                             den |-> BlockEval("rd", NoPar, <<seek(j).den>>, osh, <<>>)]
+                K == Len(tch)
+                S0 == [sig |-> [npsig EXCEPT !.back = "dask", !.ch = ch0, !.data = <<>>, !.val = pieces,
+                                             !.blk = [b \in BlockSet(ch0) |-> K + b[1]]],
+                       g |-> [j \in 1..(2 * K) |-> IF j <= K THEN seek(j) ELSE rd(j - K)]]
             IN IF r.ch = ch0 THEN S0 ELSE Apply(S0, RechunkRule(S0.sig, r.ch), "rechunk")
        [] OTHER ->
             [sig |-> [npsig EXCEPT !.back = "dask", !.ch = r.ch, !.data = <<>>,
